@@ -217,4 +217,32 @@ theorem reward_saturates {db : Db} {s s' : JState} {spec : Nat} {e : FeeEnv} {sp
   obtain ⟨b, _⟩ := rewardBeneficiary_bal h
   rw [b, upd_same]; unfold U256.saturatingAdd; rw [if_neg (by omega)]
 
+
+/-! ## parts 1 and 2 together -/
+
+/-- `deduct_caller`, then ANY history of journal operations (the execution: calls, creations,
+self-destructs, reverted frames, …), then the post-execution legs -/
+theorem tx_history_conserves {db : Db} {L : List Addr} {s0 s1 s3 : JState} {r2 : Run} {cps : List Checkpoint}
+    {ops : List Op} {spec : Nat} {e : FeeEnv} {rewards : Bool} {remaining spent refunded : Nat}
+    (hn : L.Nodup) (hcL : e.caller ∈ L) (hbL : e.coinbase ∈ L)
+    (hok0 : BalOk db s0) (hj0 : JB s0 = []) (hSum : total L db s0 < W)
+    (hval : Validated db s0 spec e) (hgas : GasOk e remaining spent refunded)
+    (hded : deductCaller db s0 spec e = some s1)
+    (hL : ∀ op ∈ ops, ∀ a ∈ opAddrs op, a ∈ L) (hf : FundedRun db ⟨s1, cps⟩ ops)
+    (hrun : run db ⟨s1, cps⟩ ops = some r2)
+    (hpost : postExecution db r2.js spec e rewards remaining spent refunded = some s3) :
+    total L db s3 + burntPerGas spec e * (spent - refunded) + dataFee spec e + burnt r2.js
+      + (if rewards then 0 else coinbaseGasPrice spec e * (spent - refunded)) = total L db s0 := by
+  obtain ⟨c, hc, b1, j1⟩ := deductCaller_bal hded
+  have hok1 : BalOk db s1 := by
+    intro x; rw [b1]
+    exact upd_ok hok0 _ (by have := hok0 e.caller; unfold U256.saturatingSub; omega) x
+  have hle : total L db s1 ≤ total L db s0 := by
+    have := sumOver_upd (bal db s0) (U256.saturatingSub (bal db s0 e.caller) c) hn hcL
+    simp only [total, b1]; unfold U256.saturatingSub at this ⊢; omega
+  have hexec := ledger_of_inv hn (run_inv (r := ⟨s1, cps⟩) hn (show sumOver L (bal db s1) < W from by
+    have : sumOver L (bal db s1) = total L db s1 := rfl
+    omega) (binv_fresh hok1 (j1.trans hj0)) hL hf hrun)
+  exact tx_conserves hn hcL hbL hok0 hSum hval hgas hded hexec hpost
+
 end Revm.Proofs.Ether
